@@ -597,11 +597,15 @@ class Model(IOSpecOperation, EditableParent):
                 obj, key = n._impl[OBJ], n._impl[KEY]
                 if key not in obj.input_keys:
                     with self._impl.system.trace_stack(maxlen=None):
-                        obj.get_value_from_key(key)
-                        tracestack = self._impl.system.callstack.tracestack
-                        for trace in tracestack:
-                            if trace[0] == "ENTER":
-                                calculated.append(trace[3])
+                        try:
+                            obj.get_value_from_key(key)
+                        finally:
+                            # Also when the target fails, the nodes calculated
+                            # for it must be cleared by the finally clause below
+                            tracestack = self._impl.system.callstack.tracestack
+                            for trace in tracestack:
+                                if trace[0] == "ENTER":
+                                    calculated.append(trace[3])
 
                     calc_targets.append(n._impl)
 
